@@ -523,7 +523,13 @@ impl Source {
     pub fn uploaders(&self) -> Option<Vec<String>> {
         self.0
             .get("Uploaders")
-            .map(|s| s.split(',').map(|s| s.trim().to_owned()).collect())
+            .map(|s| {
+                // an empty field and a trailing comma hold no uploader
+                s.split(',')
+                    .map(|s| s.trim().to_owned())
+                    .filter(|s| !s.is_empty())
+                    .collect()
+            })
     }
 
     /// Set the uploaders field
